@@ -9,5 +9,23 @@ CHECKS = {
         note="Trusts Python fractions/numpy comparison; spacings positive, shapes >= 1; .5 ties within 1e-9 accept both roundings.",
         technique="property-based testing (Hypothesis) + exhaustive lattice enumeration against an exact rational model",
     ),
+    "C13": dict(
+        text="Generated-input search against closed-form oracles: get_region vs min/max, inside vs the closed-box predicate element by element "
+             "(points exactly on and one ulp around the bounds, any array shape/order), nodes of scatter_points/grid_coordinates inside the region, "
+             "pad_region arithmetic and undo, project_region vs the exact bounding box for projections whose extrema fall on its sampling nodes, "
+             "maxabs vs a NaN-aware reference, and rejection of invalid regions by every validating public function.",
+        design_ref="DESIGN.md 5 (C13)",
+        note="Finite float inputs; pad undo exact on dyadic values, 2 ulp otherwise; project_region only judged for projection families with a known exact bounding box.",
+        technique="property-based testing (Hypothesis) against closed-form reference predicates",
+    ),
+    "C17": dict(
+        text="Exhaustive enumeration of the (W, E) lattice (5 degrees, refined to 1 degree around the seams in the thorough tier) with probe longitudes "
+             "on the same lattice, plus generated off-lattice arcs and invalid inputs, judged by exact modular arithmetic on rationals: W'<=E', bounds "
+             "congruent mod 360, width preserved, latitudes untouched, longitudes congruent and in the returned convention, and verde.inside on the "
+             "returned pair true exactly for longitudes angularly within the original arc.",
+        design_ref="DESIGN.md 5 (C17)",
+        note="Arcs representable in neither convention and arcs within 0.01 degree of (but not equal to) a full circle are counted, not asserted; off-lattice tolerance 1e-9 degree.",
+        technique="exhaustive lattice enumeration + property-based testing (Hypothesis) against an exact rational model",
+    ),
 }
 NOT_APPLICABLE = {}
